@@ -52,7 +52,7 @@ add(
     "C04",
     "stateful model-based testing (child->parent reference model) plus both-ends consistency, derived-accessor, aggregate-iterator and frame-condition invariants; isolation cases for shared mutable arguments",
     "Exploration: the C03 histories (other seeds) are judged after every op by: membership <=> parent attribute for all six relations, single ownership, len vs iteration, the reference model's parent of every node (old parent forgot the node; unnamed nodes did not move), module order, .ir/.module/.section, all aggregate iterators of IR/Module/Section as multisets, and an attribute frame condition; 10% of cases construct pairs of nodes with default or shared mutable arguments and check they share no state. Sampling, not proof.",
-    "Trusts vlib/forest.py (model), Hypothesis. Re-inserting a module into the list already holding it is judged by uniqueness/membership only (position ambiguous).",
+    "Trusts vlib/forest.py (model), Hypothesis. Re-inserting a module into the list already holding it (insert, item and slice assignment) must give the built-in result minus the module's old occurrence; only the same module named twice inside one argument is judged by uniqueness/membership alone.",
 )
 add(
     "C10",
@@ -111,7 +111,7 @@ add(
 add(
     "C17",
     "fault enumeration over generated seed files: exhaustive truncations, single-bit flips, header variations and single structural faults per file; random bytes/splices; judged by a coherence checker and a reference reader",
-    "Fault enumeration: for each generated seed file (quick 48, thorough 1600 files of 30-800 bytes) one fault family is enumerated completely - every cut point, every bit of every byte, 3 replacement values at every position, every other value of each header byte plus short headers and version-field values, or every single structural fault (every ordered pair of UUID-bearing positions made equal, every reference slot x missing / each wrong kind, every enum field x unknown numbers, every UUID field x lengths 0/15/17, payload-less blocks and expressions, contents longer than size) - and random byte strings / splices are tried; each file must be rejected (ValueError where the property names it) or yield an IR that passes the coherence checker (C03+C04 by full walk, distinct UUIDs, typed and attached references, bytes <= size, Enum-typed attributes, re-savable) and equals what a reference reader makes of the file; every unmodified seed must load. Exhaustive per seed file and family, sampled over seed files; hangs are bounded by a per-file 20 s breaker.",
+    "Fault enumeration: for each generated seed file (quick 48, thorough 1600 files of 30-800 bytes) one fault family is enumerated completely - every cut point, every bit of every byte, 3 replacement values at every position, every other value of each header byte plus short headers and version-field values, or every single structural fault (every ordered pair of UUID-bearing positions made equal, same-kind triples sharing one UUID, every reference slot x missing / each wrong kind, every enum field x unknown numbers, every UUID field x lengths 0/15/17, payload-less blocks and expressions, contents longer than size) - and random byte strings / splices are tried; each file must be rejected (ValueError where the property names it) or yield an IR that passes the coherence checker (C03+C04 by full walk, distinct UUIDs, typed and attached references, bytes <= size, Enum-typed attributes, re-savable) and equals what a reference reader makes of the file; every unmodified seed must load. Exhaustive per seed file and family, sampled over seed files; hangs are bounded by a per-file 20 s breaker.",
     "Trusts vlib/coherence.py, vlib/refmsg.py (reference reader), vlib/spec.py + irbuild.py (seed files), the protobuf runtime.",
     category="fault_enumeration",
 )
